@@ -103,6 +103,15 @@ def gen_cases(tier, rng):
                         sched = ",".join("%d:%d:%d" % (t, off + i, nb[i]) for i in range(4))
                         cases.append("cv09 cvba %d %d 0 %s %s" % (off, size, hexs(w), sched))
                     cases.append("cv09 cvba %d %d 0 %s %s" % (off, size, hexs(w), "0:%d:%d,1:%d:%d" % (off, nb[0], off + 3, nb[3])))
+    # copy_and_verify by value on a registered struct in sandbox memory, verifier with a deduced parameter type
+    for rep in range(4 if q else 20):
+        wl = rng.choice([8, 9, 16, 24])
+        w = [rng.randrange(256) for _ in range(wl)]
+        off = rng.choice([0, wl - 8])
+        cases.append("cv09 structv %d 0 0 %s -" % (off, hexs(w)))
+        for t in range(3):
+            for i in range(off, off + 8):
+                cases.append("cv09 structv %d 0 0 %s %d:%d:%d" % (off, hexs(w), t, i, w[i] ^ 0xff))
     # copy_and_verify on a pointer cell in sandbox memory: the cell (4 bytes at 0) designates object A (at 8) or B (at 16) of the
     # window; the adversary redirects or nulls the cell before the fetch, between fetch and read, and afterwards
     for elsz in (1, 2, 4, 8):
